@@ -2,7 +2,7 @@
 import os
 from . import core
 
-CFGS = ["sse2", "sse2-rel", "scalar", "coresimd"]
+CFGS = ["sse2", "sse2-rel", "scalar", "coresimd", "assert", "assert-scalar"]     # glam-assert builds: no in-domain call may trip an assertion
 
 
 def run(res, only=None):
@@ -17,8 +17,8 @@ def run(res, only=None):
                 "the product from_translation*from_quat*from_scale, from_rotation_translation, from_mat3_translation against the exact ring "
                 "matrix (last row/column exact); to_scale_rotation_translation: translation exact, unit rotation, |scale| with negative x iff "
                 "det < 0, recomposition. 2-D: all 4 sign patterns x 8 angles on Affine2/DAffine2/Mat3/Mat3A/DMat3/Mat2.")
-    res.assumptions = ["scales are powers of two (exact); general magnitudes in [1e-3,1e3] are not enumerated", "tolerance 4e-5*max|scale| (f32), 4e-12 (f64)"]
+    res.assumptions = ["scales are powers of two 2^-10 .. 2^10 (exact); other magnitudes in [1e-3,1e3] are not enumerated", "tolerance 4e-5*max|scale| (f32), 4e-12 (f64)"]
 
 
 def replay(res, path, only=None):
-    return core.generic_replay(res, path, "rot", env_keys=())
+    return core.replay_dispatch(res, path, "rot", env_keys=())
